@@ -368,6 +368,20 @@ def mk_objchain(d):
 '''
 
 
+# well-behaved values of less common types (subclasses of the built-in containers and scalars, library value types): a
+# truthful snapshot names their real type and renders them as the program would print them
+EXOTIC = (
+    "__import__('collections').namedtuple('NT', 'a b')(1, 2)", "__import__('collections').namedtuple('One', 'value')('abc')",
+    "__import__('collections').namedtuple('One', 'value')(5)", "__import__('time').struct_time((2020, 1, 2, 3, 4, 5, 3, 2, 0))",
+    "__import__('datetime').date(2020, 1, 2)", "__import__('decimal').Decimal('1.50')", "__import__('fractions').Fraction(3, 4)",
+    "1+2j", "range(3)", "__import__('uuid').UUID(int=5)", "__import__('pathlib').PurePosixPath('/a/b')",
+    "__import__('enum').IntEnum('Lvl', 'LOW HIGH').HIGH", "type('TupSub', (tuple,), {})((1, 2, 3))",
+    "type('TupOne', (tuple,), {})(('%d',))", "type('StrSub', (str,), {})('text %s')", "type('IntSub', (int,), {})(7)",
+    "type('ListSub', (list,), {})([1, 2])", "type('DictSub', (dict,), {})(a=1)", "type('FloatSub', (float,), {})(2.5)",
+    "__import__('collections').Counter('aab')", "__import__('collections').defaultdict(list, a=[1])",
+)
+
+
 def gen_local_stmts(r, n=None, offenders=False, big=False, sharing=False, cycles=False, plain=False):
     """Statements that bind locals.  Returns (list of source lines, list of local names in binding order)."""
     lines, names = [], []
@@ -375,9 +389,11 @@ def gen_local_stmts(r, n=None, offenders=False, big=False, sharing=False, cycles
     n = n if n is not None else r.randrange(1, 7)
     recipes = ["scalar", "scalar", "nested", "nested", "obj"]
     if not plain:
-        recipes += ["alias"]
+        recipes += ["alias", "exotic"]
     if big:
         recipes += ["biglist", "widedict", "deep", "longstr", "tree", "bigset", "objchain", "bigtuple"]
+        if r.random() < 0.25:
+            recipes += ["hugedict"]
     if sharing:
         recipes += ["shared", "alias", "sharedobj", "twinpriv"]
     if cycles:
@@ -395,6 +411,9 @@ def gen_local_stmts(r, n=None, offenders=False, big=False, sharing=False, cycles
         elif k == "obj":
             lines.append("%s = %s" % (v, r.choice(("P(1, 'b')", "Q(2, [1, 2], {'z': 1})", "S(3, 4)", "HostErr('m', 1)",
                                                    "P(P(1, 2), Q(3, 4, 5))"))))
+        elif k == "exotic":
+            e = r.choice(EXOTIC)
+            lines.append("%s = %s" % (v, r.choice((e, e, "[%s, 1]" % e, "{'k': %s}" % e, "P(%s, 2)" % e))))
         elif k == "alias":
             if names:
                 lines.append("%s = %s" % (v, r.choice(names)))
@@ -411,6 +430,16 @@ def gen_local_stmts(r, n=None, offenders=False, big=False, sharing=False, cycles
         elif k == "widedict":
             lines.append("%s = {'k%%d' %% i: %s for i in range(%d)}" % (v, r.choice(("i", "[i]", "str(i)")),
                                                                      r.choice((11, 40, 1100))))
+        elif k == "hugedict":
+            # wider than any queue or table a collector might size "generously"
+            size = r.choice((10500, 12000, 70000))
+            form = r.randrange(3)
+            if form == 0:
+                lines.append("%s = {i: i for i in range(%d)}" % (v, size))
+            elif form == 1:
+                lines.append("%s = {'k%%d' %% i: [i] for i in range(%d)}" % (v, size))
+            else:
+                lines.append("%s = P(0, 0); %s.__dict__.update({'a%%d' %% i: i for i in range(%d)})" % (v, v, size))
         elif k == "deep":
             lines.append("%s = mk_deep(%d)" % (v, r.choice((2, 4, 5, 6, 9, 30))))
         elif k == "tree":
@@ -462,6 +491,8 @@ def gen_value_program(r, name, local_lines, watches_scope=None, nthreads_hint=1,
         p.lines.append(line)
     p.emit(0, "")
     p.emit(0, "G_HOST = 424242")
+    # reachable only through watches (never bound in the frame): awkward values that several watches of one snapshot reach
+    p.emit(0, "G_REG = {'n': [1, 2], 'job': BadStrBase(3), 'len': BadLen([4]), 'ok': P(5, 6), 'all': BadAll()}")
     p.emit(0, "")
     p.emit(0, "def inner(depth, ctx, out):", "inner", "def")
     scope = ["depth", "ctx", "out"]
